@@ -4,12 +4,16 @@
 //! usage: seqio_replay <fasta|fastq> <capacity> <input-escaped> [ops...] [--chunk N] [--limit N]
 //!   ops: next | set | exact:N | seek:K (seek to the position recorded after the K-th returned item) | pos | lines
 //!   --limit N : DoubleUntilLimited(N, N) policy (refuses growth beyond N)
+//!   --fail-at K / --interrupt-at K : the K-th read call of the source fails with ErrorKind::Other / Interrupted
 use seq_io::policy::DoubleUntilLimited;
 use std::io::{self, Read, Seek, SeekFrom};
 
-struct Chunked { data: Vec<u8>, pos: usize, chunk: usize }
+struct Chunked { data: Vec<u8>, pos: usize, chunk: usize, calls: usize, fail_at: usize, interrupt_at: usize }
 impl Read for Chunked {
     fn read(&mut self, buf: &mut [u8]) -> io::Result<usize> {
+        self.calls += 1;
+        if self.calls == self.fail_at { return Err(io::Error::new(io::ErrorKind::Other, "injected")); }
+        if self.calls == self.interrupt_at { return Err(io::Error::new(io::ErrorKind::Interrupted, "interrupted")); }
         let n = buf.len().min(self.chunk).min(self.data.len().saturating_sub(self.pos));
         buf[..n].copy_from_slice(&self.data[self.pos..self.pos + n]);
         self.pos += n;
@@ -50,16 +54,20 @@ fn main() {
     let mut ops = vec![];
     let mut chunk = usize::MAX;
     let mut limit: Option<usize> = None;
+    let mut fail_at = 0usize;
+    let mut interrupt_at = 0usize;
     let mut i = 4;
     while i < a.len() {
         match a[i].as_str() {
             "--chunk" => { chunk = a[i + 1].parse().unwrap(); i += 2; }
             "--limit" => { limit = Some(a[i + 1].parse().unwrap()); i += 2; }
+            "--fail-at" => { fail_at = a[i + 1].parse().unwrap(); i += 2; }
+            "--interrupt-at" => { interrupt_at = a[i + 1].parse().unwrap(); i += 2; }
             o => { ops.push(o.to_string()); i += 1; }
         }
     }
     if ops.is_empty() { for _ in 0..64 { ops.push("next".into()); } }
-    let src = Chunked { data, pos: 0, chunk };
+    let src = Chunked { data, pos: 0, chunk, calls: 0, fail_at, interrupt_at };
     let lim = limit.unwrap_or(usize::MAX / 4);
     if fmt == "fastq" {
         use seq_io::fastq::{Reader, Record, RecordSet, Position};
